@@ -153,9 +153,25 @@ PROPS["C18"] = dict(
     assumptions=["lens / mapping mirrors (arbitrary functions of problem and state)", "CBMC's IEEE-754 model"],
 )
 
+PROPS["C19"] = dict(
+    level="other",
+    explanation=("Contract part: the pheromone-matrix kernel (PheromoneMatrix::new / Index / IndexMut / MulAssign) as Kani Hoare triples: "
+                 "a fresh matrix holds the initial value everywhere, pm[i][j] addresses entry (i, j) alone, `*pm *= f` multiplies EVERY "
+                 "trail by f. Tour generation (WeightedIndex sampling, powf) and the two update components live in State-based bodies: "
+                 "bounded native runs on small TSP instances, each update compared with an independently computed expectation."),
+    verus=[],
+    kani=[dict(files=["contracts/C19/c19.rs"])],
+    native=[dict(files=["contracts/C19/c19_native.rs"],
+                 harnesses={"c19_native_ant_colony": dict(anchor="AcoGeneration / AsPheromoneUpdate / MinMaxPheromoneUpdate",
+                            bound="BOUNDED STAND-IN, native run: 2 TSP instances (5 and 6 cities) x 4 seeds x {ant system, max-min} x 25 generation + evaluation + update steps")})],
+    min_obligations={"quick": 2, "thorough": 3},
+    uncovered=["'for every pheromone state the algorithm can reach' beyond the states reached in the runs", "the sampling distribution of the tours",
+               "evaporation with a symbolic factor (CBMC does not finish: float multipliers); factors {1, 0.5, 0.75, 0}"],
+    assumptions=["CBMC's IEEE-754 model"],
+)
+
 NOT_YET = "not claimed yet in this commit: unit under construction (see DESIGN.md §4 for the planned contracts)"
 NOT_APPLICABLE = {
-    "C19": "iterator chains, powf and WeightedIndex sampling inside State-based execute bodies; the stated invariants are numerical (DESIGN.md §6)",
     "C20": "energy conservation 'up to rounding' needs real arithmetic over f64 (uninterpreted in Verus) inside State-based execute bodies using .iter().position(closure) (DESIGN.md §6)",
 }
 
